@@ -13,7 +13,8 @@ Extracted (fail closed on every other shape; the recognisers are those of transl
   * the range guard of every property setter of Geometry, Characteristics, Environment, APDCharacteristics (the
     recognisers are those of translator/c12.py, imported, not edited): `if not (lo <= v <= hi): raise`,
     `if v <= 0: raise`, `if v < lo or v > hi: raise`, unconditional or under `isinstance(v, int | float)` with a
-    rejecting else branch; integer bounds; the geometry subclasses add nothing                -> src_setter_guards
+    rejecting else branch; integer bounds; `if len(v) != n: raise`; the geometry subclasses add nothing
+                                                                                              -> src_setter_guards
 """
 from __future__ import annotations
 
@@ -61,6 +62,8 @@ def guard_of_acc(g: "c12.GuardAcc", where: str) -> str:
         return "GAny"
     if not (g.pre in (None, "PAlways") or (g.pre == "PIsNumber" and g.else_reject)):
         raise TranslationError(f"{where}: guard under precondition {g.pre} (else-reject={g.else_reject})")
+    if [k for k, _ in g.clauses] == ["RaiseUnlessLen"] and g.pre in (None, "PAlways"):
+        return f"(GLen ({int(g.clauses[0][1])}))"      # `if [not isinstance(v, Sequence): raise;] if len(v) != n: raise`
     lo = hi = None   # (bound, strict)
     for kind, arg in g.clauses:
         if kind == "RaiseUnlessAll":      # accepted iff every atom holds
